@@ -13,10 +13,6 @@ import (
 	"sync"
 	"time"
 
-	"github.com/mimecast/dtail/internal/server/handlers"
-	"github.com/mimecast/dtail/internal/source"
-	user "github.com/mimecast/dtail/internal/user/server"
-	"github.com/mimecast/dtail/verifharness/internal/dt"
 	"github.com/mimecast/dtail/verifharness/internal/mq"
 	"github.com/mimecast/dtail/verifharness/internal/vlib"
 	"golang.org/x/crypto/ssh"
@@ -26,7 +22,6 @@ import (
 
 func init() {
 	Drivers["C10"] = c10
-	Children["c10handler"] = c10HandlerChild
 }
 
 type c10Input struct {
@@ -229,60 +224,6 @@ func c10Probes(file string) []c10Input {
 	return []c10Input{mk("tail"), mk("cat"), mk("grep"), mk("map"), mk("map "), mk("map `"), mk("map select ` from x"), mk("cat " + file),
 		mk("map select count($line) from STATS interval 0"), mk("map select count($line) from STATS interval -1"),
 		mk("map:plain=true"), mk(".ack"), mk("timeout"), mk("tail:max=1"), mk("")}
-}
-
-func c10HandlerChild(args []string) int {
-	dir := args[0]
-	dt.Init(source.Server, "none", "none", "error", true)
-	// Commands which finish synchronously run the close handshake inside
-	// Write (up to 5s waiting for an ack which cannot arrive meanwhile), so many
-	// sessions are driven concurrently.
-	return vlib.BatchMainPar(dir, 64, func(i int, raw json.RawMessage) interface{} {
-		t0 := time.Now()
-		var in c10Input
-		json.Unmarshal(raw, &in)
-		var data []byte
-		fmt.Sscanf(in.Hex, "%x", &data)
-		u, err := user.New("fuzzer", "127.0.0.1:1")
-		if err != nil {
-			return map[string]string{"err": err.Error()}
-		}
-		h := handlers.NewServerHandler(u, make(chan struct{}, 2), make(chan struct{}, 2))
-		var out bytes.Buffer
-		var omu sync.Mutex
-		stop := make(chan struct{})
-		readerDone := make(chan struct{})
-		go func() {
-			defer close(readerDone)
-			buf := make([]byte, 32768)
-			for {
-				// like the transport's copy loop: read until the handler reports EOF
-				n, err := h.Read(buf)
-				if n > 0 {
-					omu.Lock()
-					if out.Len() < 4096 {
-						out.Write(buf[:n])
-					}
-					omu.Unlock()
-				}
-				if err != nil {
-					return
-				}
-			}
-		}()
-		h.Write(data)
-		// let the command goroutines run: a panic in any of them ends this process
-		time.Sleep(40 * time.Millisecond)
-		h.Shutdown()
-		close(stop)
-		select {
-		case <-readerDone:
-		case <-time.After(3 * time.Second):
-		}
-		omu.Lock()
-		defer omu.Unlock()
-		return map[string]interface{}{"resp_len": out.Len(), "resp": vlib.Trunc(out.String(), 120), "ms": time.Since(t0).Milliseconds()}
-	})
 }
 
 func c10(r *vlib.Run) int {
